@@ -990,7 +990,7 @@ def gen_handshake(real, rng, cid, script=None):
     t = BASE_T + rng.randint(0, 3000)
     script = script or rng.choice(["honest", "honest", "flip-client-hello", "flip-server-hello", "foreign-root", "resigned", "other-session",
                                     "wrong-token", "other-key-challenge", "dup-reorder", "tofu", "pinned-other", "trunc-ext", "early-app",
-                                    "no-answer", "stacked", "early-send", "late-hello", "rekey-attempt"])
+                                    "no-answer", "stacked", "early-send", "late-hello", "rekey-attempt", "lookalike"])
 
     def emit(line):
         o = run.exec(line)
@@ -1123,6 +1123,28 @@ def gen_handshake(real, rng, cid, script=None):
                 payload = resigned_hello(real, gen, real.server_ctxt("other").server_root_key)
                 # the forgery arrives once, or several times in fresh datagrams (a rejected attempt must not weaken the next check)
                 for j in range(rng.choice([1, 2, 3])):
+                    t += 3
+                    emit("recv c t=%d d=!2,%d,0,0,%d,1:%s:none" % (t, j + 1, t // 1024, (struct.pack(">H", j + 1) + payload).hex()))
+            elif script == "lookalike":
+                # the body of a SERVER_HELLO that is not a server hello: an object of ANOTHER registered class. Classes whose instances
+                # carry the attributes the client reads (server_pubkey, salt, token) are filled with the attacker's values - nothing but
+                # a HandshakeServerHelloMessage verified under the pinned key may give the client a key
+                import mpgameserver.serializable as S
+                att = C.EllipticCurvePrivateKey.new()
+                bodies = []
+                for tid, cls in sorted(S.SerializableType.registry.items(), key=lambda kv: str(kv[0])):
+                    if not isinstance(cls, type) or cls is C.HandshakeServerHelloMessage or not issubclass(cls, S.Serializable):
+                        continue
+                    try:
+                        obj = cls()
+                        if all(hasattr(obj, a) for a in ("server_pubkey", "salt", "token")):
+                            obj.server_pubkey, obj.salt, obj.token = att.getPublicKey(), bytes(16), 0x40001234
+                            bodies.insert(0, obj.dumpb())
+                        elif cls in (C.HandshakeClientChallengeResponseMessage,):
+                            bodies.append(obj.dumpb())
+                    except Exception:
+                        continue
+                for j, payload in enumerate(bodies[:3]):
                     t += 3
                     emit("recv c t=%d d=!2,%d,0,0,%d,1:%s:none" % (t, j + 1, t // 1024, (struct.pack(">H", j + 1) + payload).hex()))
             elif script in ("other-session", "foreign-root") and ks2 is not None:
